@@ -200,7 +200,8 @@ class Mon:
         self.active = False
         try:
             with monitor.quiet():
-                want = Preemphasize(module.coeff).apply(xn)
+                src = self.origin.get(module)  # the NumPy object the module was made from (when it came from the factory method)
+                want = (src if src is not None else Preemphasize(module.coeff)).apply(xn)
         finally:
             self.active = True
         self.rec.ev()
